@@ -276,3 +276,77 @@ pub fn c06_command_abort_b() {
     let p = nd::any_u8();
     dispatch!(p, command_abort_case, 4 5 6);
 }
+
+/// An aborted command driven as a `Stream` (how a parent command or the Core hosts it) must end:
+/// `poll_next` yields the outputs emitted before the abort and then `None` — never `Pending` with
+/// nothing left that could wake it (the host would keep it, and everything it captured, forever).
+/// P: 0 = aborted before the first poll while a spawned task still waits in the spawn queue,
+///    1 = aborted after the first polls, with tasks parked and all outputs already taken,
+///    2 = aborted after the first poll, with outputs still queued.
+fn aborted_stream_case<const P: u8>() {
+    use futures::Stream;
+    use std::pin::Pin;
+    use std::task::{Context, Poll, Waker};
+
+    let (pa, pb) = (Arc::new(Probe::default()), Arc::new(Probe::default()));
+    let (sa, sb) = (Slot::new(), Slot::new());
+    let tag = nd::any_u8();
+    let s0 = Step { effect: true, event: true, keep_slot: true, ..Step::pending() };
+    let s1 = Step { effect: true, ready: true, ..Step::pending() };
+    let mut cmd: Cmd = {
+        let (pa, pb, sa, sb) = (pa.clone(), pb.clone(), sa.clone(), sb.clone());
+        crux_core::Command::new(move |ctx| {
+            ctx.spawn(move |ctx| Script::new([s0, s1, Step::pending()], &pb, &sb, ctx, tag));
+            Script::new([s0, s1, Step::pending()], &pa, &sa, ctx, tag)
+        })
+    };
+    let abort = cmd.abort_handle();
+    let mut cx = Context::from_waker(Waker::noop());
+
+    let mut taken = 0u8;
+    if P == 0 {
+        abort.abort();
+    } else {
+        // first poll: both tasks run, four outputs are queued; take one (P == 2) or all (P == 1)
+        let n = if P == 1 { 4 } else { 1 };
+        while taken < n {
+            match Pin::new(&mut cmd).poll_next(&mut cx) {
+                Poll::Ready(Some(_)) => taken += 1,
+                _ => panic!("queued output not yielded"),
+            }
+        }
+        if P == 1 {
+            assert!(matches!(Pin::new(&mut cmd).poll_next(&mut cx), Poll::Pending), "parked tasks: pending");
+        }
+        abort.abort();
+    }
+    // after the abort: remaining already-emitted outputs, then the end
+    let mut rest = 0u8;
+    let mut ended = false;
+    let mut i = 0u8;
+    while i < 5 && !ended {
+        match Pin::new(&mut cmd).poll_next(&mut cx) {
+            Poll::Ready(Some(_)) => rest += 1,
+            Poll::Ready(None) => ended = true,
+            Poll::Pending => panic!("an aborted command with nothing left to wake it must end, not stay pending"),
+        }
+        i += 1;
+    }
+    assert!(ended, "stream ended");
+    assert!(taken + rest == if P == 0 { 0 } else { 4 }, "exactly the outputs emitted before the abort");
+    assert!(pa.polls() == u8::from(P != 0) && pb.polls() == u8::from(P != 0), "no poll after the abort");
+    // ended stays ended
+    assert!(matches!(Pin::new(&mut cmd).poll_next(&mut cx), Poll::Ready(None)), "still ended");
+    assert!(pa.polls() == u8::from(P != 0) && pb.polls() == u8::from(P != 0), "no poll on later polls of the stream either");
+    nd_cover!(P == 0, "aborted before first poll, spawn queue not empty");
+    nd_cover!(P == 1, "aborted while parked");
+    nd_cover!(P == 2, "aborted with outputs queued");
+    forget((cmd, pa, pb, sa, sb));
+}
+
+#[cfg_attr(kani, kani::proof, kani::unwind(7))]
+#[cfg_attr(kani, kani::stub(core::mem::MaybeUninit::write, crate::common::maybe_uninit_write))]
+pub fn c06_aborted_stream_ends() {
+    let p = nd::any_u8();
+    dispatch!(p, aborted_stream_case, 0 1 2);
+}
